@@ -54,6 +54,10 @@ class Literal(Exception):
         return "{%d}" % self.value
 
 
+class LiteralArgument(bytes):
+    """A command argument already formatted as a literal."""
+
+
 def authentication_required(meth):
     """Simple class method decorator.
 
@@ -317,11 +321,17 @@ class Client:
         """
         ret = []
         for a in args:
+            if isinstance(a, LiteralArgument):
+                ret += [a]
+                continue
             if isinstance(a, bytes):
-                if self.__size_expr.match(a):
-                    ret += [a]
+                if re.search(rb"[\r\n\0]", a):
+                    # can't be sent as a quoted string
+                    ret += [b"{%d+}%s%s" % (len(a), CRLF, a)]
                 else:
-                    ret += [b'"' + a + b'"']
+                    ret += [
+                        b'"' + a.replace(b"\\", b"\\\\").replace(b'"', b'\\"') + b'"'
+                    ]
                 continue
             ret += [bytes(str(a).encode("utf-8"))]
         return ret
@@ -336,7 +346,7 @@ class Client:
         :return: transformed script as bytes
         """
         bcontent: bytes = content.encode("utf-8")
-        return b"{%d+}%s%s" % (len(bcontent), CRLF, bcontent)
+        return LiteralArgument(b"{%d+}%s%s" % (len(bcontent), CRLF, bcontent))
 
     def __send_command(
         self,
